@@ -451,6 +451,8 @@ pub struct Node {
 	/// data processed after its last poll of pending (monitor) events
 	pub last_sync_step: u64,
 	pub unpolled_at_reorg: bool,
+	/// step at which the current incarnation started
+	pub live_since_step: u64,
 	/// channels with a completed monitor write the ChannelManager has not been told about yet
 	pub unprocessed_completions: BTreeSet<[u8; 32]>,
 	/// channels this node reported closed (any reason) in this / in an earlier incarnation
@@ -761,6 +763,7 @@ impl World {
 				event_seq: 0,
 				last_sync_step: 0,
 				unpolled_at_reorg: false,
+				live_since_step: 0,
 				unprocessed_completions: BTreeSet::new(),
 				closed_this_incarnation: BTreeSet::new(),
 				closed_in_earlier_incarnation: BTreeSet::new(),
